@@ -248,3 +248,383 @@ Proof.
   assert (fresh_cnt U [start] <= List.length U); [|lia].
   unfold fresh_cnt. apply filter_length_le'.
 Qed.
+
+(* ---------- GetImplicitRolesForUser / GetImplicitUsersForRole ---------- *)
+Lemma nodes_In ls u r d : In (u, r, d) ls -> In u (nodes ls) /\ In r (nodes ls).
+Proof.
+  unfold nodes. intros H. split; apply in_flat_map; exists (u, r, d); (split; [exact H|cbn; auto]).
+Qed.
+
+(* termination: the fuelled traversal never runs out of fuel, for ANY link set *)
+Theorem implicit_roles_fuel_ok ls u d : implicit_roles_opt ls u d <> None.
+Proof.
+  unfold implicit_roles_opt, closure_fuel. apply (qbfs_fuel_sufficient _ (nodes ls)); [|lia].
+  intros x y H. apply get_roles_spec in H. apply (nodes_In _ _ _ _ H).
+Qed.
+
+Theorem implicit_users_for_role_fuel_ok ls r d : implicit_users_for_role_opt ls r d <> None.
+Proof.
+  unfold implicit_users_for_role_opt, closure_fuel. apply (qbfs_fuel_sufficient _ (nodes ls)); [|lia].
+  intros x y H. apply get_users_spec in H. apply (nodes_In _ _ _ _ H).
+Qed.
+
+(* the listing = everything reachable in the role graph of the domain (any depth), minus the start *)
+Theorem implicit_roles_reach ls u d r :
+  In r (implicit_roles ls u d) <-> r <> u /\ exists k, walk ls d u r k.
+Proof.
+  unfold implicit_roles. destruct (implicit_roles_opt ls u d) as [out|] eqn:E.
+  - cbn [or_nil]. apply qbfs_result in E as [_ S]. rewrite S. unfold greach.
+    split; intros [N [k W]]; (split; [exact N|exists k; apply gwalk_roles_walk; exact W]).
+  - exfalso. apply (implicit_roles_fuel_ok ls u d E).
+Qed.
+
+Theorem implicit_roles_NoDup ls u d : NoDup (implicit_roles ls u d).
+Proof.
+  unfold implicit_roles. destruct (implicit_roles_opt ls u d) as [out|] eqn:E; [|constructor].
+  cbn [or_nil]. apply qbfs_result in E as [N _]. exact N.
+Qed.
+
+Theorem implicit_users_for_role_reach ls r d u :
+  In u (implicit_users_for_role ls r d) <-> u <> r /\ exists k, walk ls d u r k.
+Proof.
+  unfold implicit_users_for_role. destruct (implicit_users_for_role_opt ls r d) as [out|] eqn:E.
+  - cbn [or_nil]. apply qbfs_result in E as [_ S]. rewrite S. unfold greach.
+    split; intros [N [k W]]; (split; [exact N|exists k; apply gwalk_users_walk; exact W]).
+  - exfalso. apply (implicit_users_for_role_fuel_ok ls r d E).
+Qed.
+
+Theorem implicit_users_for_role_NoDup ls r d : NoDup (implicit_users_for_role ls r d).
+Proof.
+  unfold implicit_users_for_role. destruct (implicit_users_for_role_opt ls r d) as [out|] eqn:E; [|constructor].
+  cbn [or_nil]. apply qbfs_result in E as [N _]. exact N.
+Qed.
+
+(* ---------- the depth guard ---------- *)
+Lemma ball_spec ls d n u x : In x (ball ls d n u) <-> exists k, k <= n /\ walk ls d u x k.
+Proof.
+  revert x. induction n as [|n IH]; intros x; cbn [ball].
+  - cbn [In]. split.
+    + intros [<-|[]]. exists 0. split; [lia|constructor].
+    + intros [k [Hk W]]. assert (k = 0) by lia. subst k. inversion W; subst. left. reflexivity.
+  - rewrite dedup_In, in_app_iff, in_flat_map. split.
+    + intros [H|[y [Hy Hs]]].
+      * apply IH in H as [k [Hk W]]. exists k. split; [lia|exact W].
+      * apply IH in Hy as [k [Hk W]]. apply succs_In in Hs. exists (S k). split; [lia|].
+        eapply walk_snoc; eassumption.
+    + intros [k [Hk W]]. destruct (Nat.eq_dec k (S n)) as [->|Ne].
+      * apply walk_unsnoc in W as [b [Wb Hb]]. right. exists b. split.
+        -- apply IH. exists n. split; [lia|exact Wb].
+        -- apply succs_In. exact Hb.
+      * left. apply IH. exists k. split; [lia|exact W].
+Qed.
+
+(* depth_ok says exactly: whatever u reaches in the role graph, it reaches within max_level edges *)
+Theorem depth_ok_iff ls d u :
+  depth_ok ls d u = true <->
+  (forall r k, walk ls d u r k -> exists k', k' <= max_level /\ walk ls d u r k').
+Proof.
+  unfold depth_ok. rewrite forallb_forall. split.
+  - intros C r k W. apply ball_spec.
+    assert (Cl : forall a b j, walk ls d a b j -> In a (ball ls d max_level u) -> In b (ball ls d max_level u)).
+    { intros a b j Wj. induction Wj as [x|x y z j Hy Wj IHj]; intros Ha; [exact Ha|].
+      apply IHj. specialize (C x Ha). rewrite forallb_forall in C. apply mem_str_In. apply C.
+      apply succs_In. exact Hy. }
+    apply (Cl u r k W). apply ball_spec. exists 0. split; [lia|constructor].
+  - intros H x Hx. apply forallb_forall. intros y Hy. apply mem_str_In. apply ball_spec.
+    apply ball_spec in Hx as [k [Hk W]]. apply succs_In in Hy. apply (H y (S k)).
+    eapply walk_snoc; eassumption.
+Qed.
+
+(* no guard: everything HasLink accepts (other than u itself) is listed *)
+Theorem implicit_roles_superset ls u d r :
+  r <> u -> has_link ls u r d = true -> In r (implicit_roles ls u d).
+Proof.
+  intros N H. apply implicit_roles_reach. split; [exact N|].
+  apply has_link_iff_walk in H as [k [_ W]]. exists k. exact W.
+Qed.
+
+(* within the guard: listed = exactly the other names for which g() holds *)
+Theorem implicit_roles_exact ls u d r : depth_ok ls d u = true ->
+  (In r (implicit_roles ls u d) <-> r <> u /\ has_link ls u r d = true).
+Proof.
+  intros D. split.
+  - intros H. apply implicit_roles_reach in H as [N [k W]]. split; [exact N|].
+    apply has_link_iff_walk. apply (proj1 (depth_ok_iff ls d u) D r k W).
+  - intros [N H]. apply implicit_roles_superset; assumption.
+Qed.
+
+Theorem implicit_users_for_role_exact ls r d u : depth_ok ls d u = true ->
+  (In u (implicit_users_for_role ls r d) <-> u <> r /\ has_link ls u r d = true).
+Proof.
+  intros D. rewrite implicit_users_for_role_reach. split; intros [N H]; (split; [exact N|]).
+  - destruct H as [k W]. apply has_link_iff_walk. apply (proj1 (depth_ok_iff ls d u) D r k W).
+  - apply has_link_iff_walk in H as [k [_ W]]. exists k. exact W.
+Qed.
+
+(* direct roles are implicit roles *)
+Theorem direct_roles_in_implicit ls u d r :
+  In r (get_roles_for_user ls u d) -> r <> u -> In r (implicit_roles ls u d).
+Proof.
+  intros H N. apply implicit_roles_reach. split; [exact N|]. apply get_roles_spec in H.
+  exists 1. econstructor; [exact H|constructor].
+Qed.
+
+(* ---------- Enforce ---------- *)
+Lemma existsb_allow_map (f : rule -> bool) policy :
+  existsb (matched_with Allow) (map (fun rule => (f rule, Allow)) policy) = existsb f policy.
+Proof.
+  induction policy as [|p t IH]; cbn [map existsb]; [reflexivity|].
+  rewrite IH. unfold matched_with. cbn [fst snd eft_eqb]. rewrite andb_true_r. reflexivity.
+Qed.
+
+(* the streaming enforce loop + MergeEffects of the two RBAC families = "some rule matches"
+   (resp. the policy-free branch) *)
+Theorem enforce_rbac_spec k ls policy req : enforce_rbac k ls policy req = enforce_spec k ls policy req.
+Proof.
+  unfold enforce_rbac, enforce_spec. destruct policy as [|p0 t].
+  - rewrite nopolicy_decision by reflexivity. reflexivity.
+  - destruct (stream_correct AllowOverride (map (fun rule => (match_rbac k ls req rule, Allow)) (p0 :: t)) eq_refl) as [_ D];
+      [cbn [map]; discriminate|].
+    rewrite D. cbn [combine]. unfold some_allow. apply existsb_allow_map.
+Qed.
+
+(* ---------- GetImplicitPermissionsForUser ---------- *)
+Lemma policy_roles_superset ls u d s : has_link ls u s d = true -> In s (policy_roles ls u d).
+Proof.
+  intros H. unfold policy_roles. destruct (string_dec s u) as [->|N]; [left; reflexivity|right].
+  apply implicit_roles_superset; assumption.
+Qed.
+
+Lemma has_link_refl ls u d : has_link ls u u d = true.
+Proof. unfold has_link, has_link_n. rewrite String.eqb_refl. reflexivity. Qed.
+
+Lemma policy_roles_sound ls u d s : depth_ok ls d u = true -> In s (policy_roles ls u d) -> has_link ls u s d = true.
+Proof.
+  intros D [<-|H]; [apply has_link_refl|]. apply (implicit_roles_exact _ _ _ _ D) in H. tauto.
+Qed.
+
+Lemma str_list_eqb_eq (a b : list string) : list_eqb String.eqb a b = true <-> a = b.
+Proof. apply list_eqb_spec. apply String.eqb_eq. Qed.
+
+Lemma grants_inv p perm : grants p perm = true <-> exists s, p = s :: perm.
+Proof.
+  unfold grants. destruct p as [|s t].
+  - split; [discriminate|intros [s E]; discriminate].
+  - rewrite str_list_eqb_eq. split; [intros ->; exists s; reflexivity|intros [s' E]; inversion E; reflexivity].
+Qed.
+
+Lemma implicit_permissions_In ls policy u p :
+  In p (implicit_permissions ls policy u) <-> In p policy /\ In (rule_sub p) (policy_roles ls u "").
+Proof. unfold implicit_permissions. rewrite filter_In, mem_str_In. tauto. Qed.
+
+Lemma set_nth1_id (d : string) (r : rule) : nth 1 r "" = d -> set_nth 1 d r = r.
+Proof.
+  destruct r as [|a [|b t]]; cbn [nth set_nth]; intros E; [reflexivity|reflexivity|subst; reflexivity].
+Qed.
+
+Lemma implicit_permissions_dom_In ls policy u d p :
+  In p (implicit_permissions_dom ls policy u d) <->
+  In p policy /\ nth 1 p "" = d /\ In (rule_sub p) (policy_roles ls u d).
+Proof.
+  unfold implicit_permissions_dom. rewrite in_flat_map. split.
+  - intros [r [Hr Hp]]. destruct (String.eqb d (nth 1 r "")) eqn:E; [|contradiction].
+    apply String.eqb_eq in E. destruct (mem_str (rule_sub r) (policy_roles ls u d)) eqn:M; [|contradiction].
+    destruct Hp as [<-|[]]. rewrite (set_nth1_id d r (eq_sym E)). apply mem_str_In in M. auto.
+  - intros [Hp [E M]]. exists p. split; [exact Hp|]. rewrite E, String.eqb_refl.
+    apply mem_str_In in M. rewrite M. left. apply set_nth1_id. exact E.
+Qed.
+
+(* a request is allowed iff a permission listed by GetImplicitPermissionsForUser grants it *)
+Theorem permissions_decide ls policy u o a :
+  depth_ok ls "" u = true -> vacuous_grant Plain ls policy [u; o; a] = false ->
+  (enforce_rbac Plain ls policy [u; o; a] = true <->
+   exists p, In p (implicit_permissions ls policy u) /\ grants p [o; a] = true).
+Proof.
+  intros D V. rewrite enforce_rbac_spec. destruct policy as [|p0 t].
+  - cbn [enforce_spec vacuous_grant] in *. rewrite V. split; [discriminate|].
+    intros [p [H _]]. apply implicit_permissions_In in H as [[] _].
+  - cbn [enforce_spec]. rewrite existsb_exists. split.
+    + intros [x [Hx M]]. cbn [match_rbac] in M.
+      destruct x as [|ps [|po [|pa [|? ?]]]]; try discriminate.
+      apply andb_true_iff in M as [M Ea]. apply andb_true_iff in M as [G Eo].
+      apply String.eqb_eq in Ea, Eo. subst po pa.
+      exists [ps; o; a]. split.
+      * apply implicit_permissions_In. split; [exact Hx|]. apply policy_roles_superset. exact G.
+      * apply grants_inv. exists ps. reflexivity.
+    + intros [p [Hp G]]. apply grants_inv in G as [ps ->]. apply implicit_permissions_In in Hp as [Hp R].
+      exists [ps; o; a]. split; [exact Hp|]. cbn [match_rbac]. cbn [rule_sub hd] in R.
+      rewrite (policy_roles_sound _ _ _ _ D R), !String.eqb_refl. reflexivity.
+Qed.
+
+Theorem permissions_decide_dom ls policy u d o a :
+  depth_ok ls d u = true -> vacuous_grant WithDomains ls policy [u; d; o; a] = false ->
+  (enforce_rbac WithDomains ls policy [u; d; o; a] = true <->
+   exists p, In p (implicit_permissions_dom ls policy u d) /\ grants p [d; o; a] = true).
+Proof.
+  intros D V. rewrite enforce_rbac_spec. destruct policy as [|p0 t].
+  - cbn [enforce_spec vacuous_grant] in *. rewrite V. split; [discriminate|].
+    intros [p [H _]]. apply implicit_permissions_dom_In in H as [[] _].
+  - cbn [enforce_spec]. rewrite existsb_exists. split.
+    + intros [x [Hx M]]. cbn [match_rbac] in M.
+      destruct x as [|ps [|pd [|po [|pa [|? ?]]]]]; try discriminate.
+      apply andb_true_iff in M as [M Ea]. apply andb_true_iff in M as [M Eo]. apply andb_true_iff in M as [G Ed].
+      apply String.eqb_eq in Ea, Eo, Ed. subst pd po pa.
+      exists [ps; d; o; a]. split.
+      * apply implicit_permissions_dom_In. split; [exact Hx|]. split; [reflexivity|].
+        apply policy_roles_superset. exact G.
+      * apply grants_inv. exists ps. reflexivity.
+    + intros [p [Hp G]]. apply grants_inv in G as [ps ->]. apply implicit_permissions_dom_In in Hp as [Hp [_ R]].
+      exists [ps; d; o; a]. split; [exact Hp|]. cbn [match_rbac]. cbn [rule_sub hd] in R.
+      rewrite (policy_roles_sound _ _ _ _ D R), !String.eqb_refl. reflexivity.
+Qed.
+
+(* without the depth guard: the listing is never too small (every allowed request is granted by
+   a listed permission) *)
+Theorem permissions_complete ls policy u o a :
+  vacuous_grant Plain ls policy [u; o; a] = false ->
+  enforce_rbac Plain ls policy [u; o; a] = true ->
+  exists p, In p (implicit_permissions ls policy u) /\ grants p [o; a] = true.
+Proof.
+  intros V. rewrite enforce_rbac_spec. destruct policy as [|p0 t].
+  - cbn [enforce_spec vacuous_grant] in *. rewrite V. discriminate.
+  - cbn [enforce_spec]. rewrite existsb_exists. intros [x [Hx M]]. cbn [match_rbac] in M.
+    destruct x as [|ps [|po [|pa [|? ?]]]]; try discriminate.
+    apply andb_true_iff in M as [M Ea]. apply andb_true_iff in M as [G Eo].
+    apply String.eqb_eq in Ea, Eo. subst po pa.
+    exists [ps; o; a]. split.
+    + apply implicit_permissions_In. split; [exact Hx|]. apply policy_roles_superset. exact G.
+    + apply grants_inv. exists ps. reflexivity.
+Qed.
+
+(* ---------- GetImplicitUsersForPermission ---------- *)
+Lemma uniq_In x l : In x (uniq l) <-> In x l.
+Proof.
+  induction l as [|y t IH]; cbn [uniq In]; [tauto|].
+  rewrite filter_In, IH. split.
+  - intros [E|[H _]]; auto.
+  - intros [E|H]; [left; exact E|]. destruct (string_dec y x) as [E|N]; [left; exact E|right].
+    split; [exact H|]. apply negb_true_iff. apply String.eqb_neq. exact N.
+Qed.
+
+Lemma NoDup_filter' {A} (f : A -> bool) l : NoDup l -> NoDup (filter f l).
+Proof.
+  induction 1 as [|x l Hx N IH]; cbn [filter]; [constructor|].
+  destruct (f x); [|exact IH]. constructor; [|exact IH]. rewrite filter_In. tauto.
+Qed.
+
+Lemma uniq_NoDup l : NoDup (uniq l).
+Proof.
+  induction l as [|y t IH]; cbn [uniq]; [constructor|].
+  constructor; [|apply NoDup_filter'; exact IH].
+  rewrite filter_In. intros [_ H]. rewrite String.eqb_refl in H. discriminate.
+Qed.
+
+Theorem candidate_subjects_spec ls policy u :
+  In u (candidate_subjects ls policy) <-> non_role_subject ls policy u.
+Proof.
+  unfold candidate_subjects, non_role_subject.
+  rewrite filter_In, uniq_In, in_app_iff, !uniq_In, negb_true_iff.
+  split; intros [H N]; (split; [exact H|]).
+  - intros R. apply (proj2 (uniq_In _ _)) in R. apply (proj2 (mem_str_In _ _)) in R. congruence.
+  - apply not_true_iff_false. intros R. apply (proj1 (mem_str_In _ _)) in R. apply (proj1 (uniq_In _ _)) in R. contradiction.
+Qed.
+
+(* listed = exactly the non-role subjects for which Enforce returns true; no guard at all *)
+Theorem users_for_permission_exact k ls policy perm u :
+  In u (implicit_users_for_permission k ls policy perm) <->
+  non_role_subject ls policy u /\ enforce_rbac k ls policy (u :: perm) = true.
+Proof. unfold implicit_users_for_permission. rewrite filter_In, candidate_subjects_spec. tauto. Qed.
+
+Theorem users_for_permission_NoDup k ls policy perm : NoDup (implicit_users_for_permission k ls policy perm).
+Proof.
+  unfold implicit_users_for_permission, candidate_subjects. apply NoDup_filter', NoDup_filter', uniq_NoDup.
+Qed.
+
+(* ---------- GetPermissionsForUser ---------- *)
+Theorem get_permissions_for_user_spec k policy u p : wf_policy k policy = true ->
+  (In p (get_permissions_for_user k policy u None) <-> In p policy /\ (u = "" \/ rule_sub p = u)).
+Proof.
+  intros W. unfold get_permissions_for_user. rewrite filter_In.
+  split; intros [Hp H]; (split; [exact Hp|]);
+    (unfold wf_policy in W; rewrite forallb_forall in W; specialize (W p Hp); apply Nat.eqb_eq in W);
+    destruct k; cbn [arity] in W;
+    (destruct p as [|s [|f1 [|f2 [|f3 [|? ?]]]]]; try discriminate W);
+    cbn [perm_args arity Nat.sub repeat fields_match rule_sub hd] in *;
+    rewrite ?String.eqb_refl in *; cbn [orb andb] in *.
+  - rewrite andb_true_r in H. apply orb_true_iff in H as [E|E]; apply String.eqb_eq in E; auto.
+  - rewrite andb_true_r in H. apply orb_true_iff in H as [E|E]; apply String.eqb_eq in E; auto.
+  - rewrite andb_true_r. apply orb_true_iff. destruct H as [-> | ->]; [left|right]; apply String.eqb_refl.
+  - rewrite andb_true_r. apply orb_true_iff. destruct H as [-> | ->]; [left|right]; apply String.eqb_refl.
+Qed.
+
+Theorem get_permissions_for_user_dom_spec policy u d p : wf_policy WithDomains policy = true ->
+  (In p (get_permissions_for_user WithDomains policy u (Some d)) <->
+   In p policy /\ (u = "" \/ rule_sub p = u) /\ (d = "" \/ nth 1 p "" = d)).
+Proof.
+  intros W. unfold get_permissions_for_user. rewrite filter_In.
+  split; intros [Hp H]; (split; [exact Hp|]);
+    (unfold wf_policy in W; rewrite forallb_forall in W; specialize (W p Hp); apply Nat.eqb_eq in W);
+    cbn [arity] in W;
+    (destruct p as [|s [|f1 [|f2 [|f3 [|? ?]]]]]; try discriminate W);
+    cbn [perm_args arity Nat.sub repeat fields_match rule_sub hd nth] in *;
+    rewrite ?String.eqb_refl in *; cbn [orb andb] in *.
+  - rewrite andb_true_r in H. apply andb_true_iff in H as [H1 H2].
+    apply orb_true_iff in H1, H2. split.
+    + destruct H1 as [E|E]; apply String.eqb_eq in E; auto.
+    + destruct H2 as [E|E]; apply String.eqb_eq in E; auto.
+  - destruct H as [H1 H2]. rewrite andb_true_r. apply andb_true_iff. split; apply orb_true_iff.
+    + destruct H1 as [-> | ->]; [left|right]; apply String.eqb_refl.
+    + destruct H2 as [-> | ->]; [left|right]; apply String.eqb_refl.
+Qed.
+
+(* the direct permissions of a (named) user are among its implicit permissions *)
+Theorem direct_permissions_in_implicit ls policy u p : wf_policy Plain policy = true -> u <> "" ->
+  In p (get_permissions_for_user Plain policy u None) -> In p (implicit_permissions ls policy u).
+Proof.
+  intros W N H. apply (get_permissions_for_user_spec _ _ _ _ W) in H as [Hp [E|E]]; [contradiction|].
+  apply implicit_permissions_In. split; [exact Hp|]. left. symmetry. exact E.
+Qed.
+
+(* ---------- outside the guards the statements are false of the faithful model ---------- *)
+Definition chain12 : list link :=
+  [("n0","n1",""); ("n1","n2",""); ("n2","n3",""); ("n3","n4",""); ("n4","n5",""); ("n5","n6","");
+   ("n6","n7",""); ("n7","n8",""); ("n8","n9",""); ("n9","n10",""); ("n10","n11",""); ("n11","n12","")].
+
+(* a chain of 12 edges: GetImplicitRolesForUser lists n11 and n12, g(n0, n11) is false *)
+Lemma depth_superset_refuted : exists ls u d r,
+  depth_ok ls d u = false /\ In r (implicit_roles ls u d) /\ r <> u /\ has_link ls u r d = false.
+Proof.
+  exists chain12, "n0", "", "n11". split; [vm_compute; reflexivity|]. split; [vm_compute; tauto|].
+  split; [discriminate|vm_compute; reflexivity].
+Qed.
+
+(* hence a listed implicit permission that Enforce does not honour *)
+Lemma permissions_depth_refuted : exists ls policy u o a,
+  depth_ok ls "" u = false /\ enforce_rbac Plain ls policy [u; o; a] = false /\
+  exists p, In p (implicit_permissions ls policy u) /\ grants p [o; a] = true.
+Proof.
+  exists chain12, [["n11"; "data1"; "read"]], "n0", "data1", "read".
+  split; [vm_compute; reflexivity|]. split; [vm_compute; reflexivity|].
+  exists ["n11"; "data1"; "read"]. split; [vm_compute; tauto|reflexivity].
+Qed.
+
+(* the policy-free branch (F37): with no rule at all the request ("", "", "") is allowed, and so is
+   (u, "", "") when g(u, "") holds, although no permission is listed *)
+Lemma nopolicy_refuted : exists ls u,
+  depth_ok ls "" u = true /\ enforce_rbac Plain ls [] [u; ""; ""] = true /\
+  implicit_permissions ls [] u = [] /\ implicit_users_for_permission Plain ls [] [""; ""] = [u].
+Proof. exists [("alice", "", "")], "alice". repeat split; vm_compute; reflexivity. Qed.
+
+(* the guard is met by every non-empty policy and by every request with a non-empty object *)
+Lemma vacuous_grant_nonempty k ls p t req : vacuous_grant k ls (p :: t) req = false.
+Proof. reflexivity. Qed.
+Lemma vacuous_grant_plain_obj ls policy u o a : o <> "" -> vacuous_grant Plain ls policy [u; o; a] = false.
+Proof.
+  intros N. destruct policy; [|reflexivity]. cbn [vacuous_grant empty_rule arity repeat match_rbac].
+  apply String.eqb_neq in N. rewrite N, andb_false_r. reflexivity.
+Qed.
+Lemma vacuous_grant_dom_obj ls policy u d o a : o <> "" -> vacuous_grant WithDomains ls policy [u; d; o; a] = false.
+Proof.
+  intros N. destruct policy; [|reflexivity]. cbn [vacuous_grant empty_rule arity repeat match_rbac].
+  apply String.eqb_neq in N. rewrite N, andb_false_r. reflexivity.
+Qed.
